@@ -13,7 +13,7 @@ import (
 
 func init() {
 	register("C07", "Schema closure: (R1) ValidateSchemaDocument returns a schema only after validateTypeDefinitions and validateDirectiveDefinitions succeeded, these apply the per-definition check to every entry of Schema.Types / Schema.Directives, and no *gqlerror.Error result in the loader is dropped; (R2) every reference position of the SDL tree is checked on every success path: type references through validateTypeRef, directive lists through validateDirectives with the location the specification assigns to the node, interfaces through validateImplements, union members against {OBJECT}, names through validateName (type names for every entry of Schema.Types, exempt only when BuiltIn); (R3) every registration into Schema.Types/Directives is guarded by a redeclaration test on the same key; (R4) LoadSchema/MustLoadSchema always put the built-in prelude first, the prelude source is BuiltIn, and the introspection fields are appended whenever a query root exists; (R5) the kind tables used by the loader equal the specification's (output kinds, input kinds — both isValidKind and Definition.IsInputType —, union members, implemented types), each DefinitionKind has the DirectiveLocation of the same spelling, and the four emptiness tests exist; (R6) structural type comparisons (isCovariant, Type.IsCompatible) compare like with like at each level and read NonNull of both sides in every descent cycle; (R7) inside the loader's check functions every branch is a check (one side can only fail), loop control, or one of the dispatch conditions the specification gives (kind dispatch, built-in exemption, required-argument test, optional lookup) — no other condition decides whether checks run; (R8) every definition stored into Schema.Types/Directives or appended to PossibleTypes/Implements is non-nil at the registration (not a lookup or search result, or nil-tested on every path).", runC07)
-	register("C17", "Order independence: (R1) register before resolve — in ValidateSchemaDocument no lookup of Schema.Types/Schema.Directives under a referenced name (member, interface, field type, root, directive use), in the function or in any callee, can be followed on a CFG path by a registration into that map; (R2) the per-definition checks iterate sorted names (C10.R1), so which error is reported does not depend on map or source order; (R3) SchemaDocument.Merge appends every list of the document, and ParseSchemas merges every source; (R4) every loader error is located at the Position of a node involved (ErrorPosf with a node position), so it names that node's file; (R5) the loader merges extensions by appending to the definition's lists, so the lists the parser hands out must own their memory: a window of a buffer kept in the parser struct leaves the parser only capacity-clipped (buf[a:b:b]).", runC17)
+	register("C17", "Order independence: (R1) register before resolve — in ValidateSchemaDocument no lookup of Schema.Types/Schema.Directives under a referenced name (member, interface, field type, root, directive use), in the function or in any callee, can be followed on a CFG path by a registration into that map; (R2) the per-definition checks iterate sorted names (C10.R1), so which error is reported does not depend on map or source order; (R3) SchemaDocument.Merge appends every list of the document — on every path, or skipped only because that list or the other document is empty — and ParseSchemas merges every source; (R4) every loader error is located at the Position of a node involved (ErrorPosf with a node position), so it names that node's file; (R5) the loader merges extensions by appending to the definition's lists, so the lists the parser hands out must own their memory: a window of a buffer kept in the parser struct leaves the parser only capacity-clipped (buf[a:b:b]).", runC17)
 }
 
 // ---------------------------------------------------------------------------
@@ -1703,6 +1703,7 @@ func runC17(c *Ctx) {
 				continue
 			}
 			ok := false
+			var okSt *ssa.Store
 			for _, s := range storesToField([]*ssa.Function{merge}, sdT, f.Name()) {
 				call, isCall := s.store.Val.(*ssa.Call)
 				if !isCall || !isAppendCall(call) {
@@ -1710,11 +1711,13 @@ func runC17(c *Ctx) {
 				}
 				a0, a1 := call.Call.Args[0], call.Call.Args[1]
 				if loadOfField(a0, "SchemaDocument", f.Name()) && loadOfField(a1, "SchemaDocument", f.Name()) && typeRootDoc(a0) != typeRootDoc(a1) {
-					ok = true
+					ok, okSt = true, s.store
 				}
 			}
-			if ok {
-				r3.OK("Merge: d."+f.Name()+" = append(d."+f.Name()+", other."+f.Name()+"...)", "")
+			if ok && okSt != nil && canSkip(okSt, mergeSkipHarmless(merge, f.Name())) {
+				r3.Fail(okSt.Pos(), p.FuncName(merge), "the append of list "+f.Name()+" can be skipped", "a path through SchemaDocument.Merge returns without appending other."+f.Name()+" under a condition other than that list (or the other document) being empty: what a source file declares there is lost, depending on what else the file holds")
+			} else if ok {
+				r3.OK("Merge: d."+f.Name()+" = append(d."+f.Name()+", other."+f.Name()+"...)", "on every path, or skipped only when other."+f.Name()+" is empty")
 			} else {
 				r3.Fail(merge.Pos(), p.FuncName(merge), "list "+f.Name()+" not merged", "SchemaDocument.Merge does not append other."+f.Name()+": definitions in a second source file would be lost")
 			}
@@ -1816,4 +1819,125 @@ func typeRootDoc(v ssa.Value) string {
 		}
 	}
 	return v.Name()
+}
+
+
+// mergeSkipHarmless: the edges of Merge along which skipping the append of list `field` loses nothing — the edge taken
+// when the other document is nil, when len(other.field) is zero, or when a helper that answers true whenever
+// len(recv.field) > 0 answered false.
+func mergeSkipHarmless(merge *ssa.Function, field string) func(from, to *ssa.BasicBlock) bool {
+	emptyTest := func(v ssa.Value) (nonEmptyWhenTrue bool, ok bool) {
+		// len(x.field) > 0, != 0, >= 1, 0 <, == 0 ...
+		bo, isB := v.(*ssa.BinOp)
+		if !isB {
+			return false, false
+		}
+		x, y, op := bo.X, bo.Y, bo.Op
+		if _, isC := x.(*ssa.Const); isC {
+			x, y = y, x
+			switch op {
+			case token.LSS:
+				op = token.GTR
+			case token.LEQ:
+				op = token.GEQ
+			case token.GTR:
+				op = token.LSS
+			case token.GEQ:
+				op = token.LEQ
+			}
+		}
+		call, isCall := x.(*ssa.Call)
+		if !isCall {
+			return false, false
+		}
+		if b, isBi := call.Call.Value.(*ssa.Builtin); !isBi || b.Name() != "len" || !loadOfField(call.Call.Args[0], "SchemaDocument", field) {
+			return false, false
+		}
+		k, isK := constInt(y)
+		if !isK {
+			return false, false
+		}
+		switch {
+		case (op == token.GTR && k == 0) || (op == token.NEQ && k == 0) || (op == token.GEQ && k == 1):
+			return true, true
+		case (op == token.EQL && k == 0) || (op == token.LSS && k == 1) || (op == token.LEQ && k == 0):
+			return false, true
+		}
+		return false, false
+	}
+	// helperTrueWhenNonEmpty: fn returns true on every path on which len(recv.field) > 0 was tested true, and that test
+	// is reached on every path that returns false
+	helperTrue := func(fn *ssa.Function) bool {
+		if fn == nil || len(fn.Blocks) == 0 || hasAnyLoop(fn) {
+			return false
+		}
+		// every false-capable return must lie beyond the false edge of a non-empty test of the field
+		for _, ret := range returnsOf(fn) {
+			if len(ret.Results) != 1 {
+				return false
+			}
+			var mayFalse func(v ssa.Value, via *ssa.BasicBlock, depth int) bool
+			mayFalse = func(v ssa.Value, at *ssa.BasicBlock, depth int) bool {
+				if depth > 6 {
+					return true
+				}
+				if cst, ok := v.(*ssa.Const); ok {
+					if cst.Value != nil && cst.Value.String() == "true" {
+						return false
+					}
+					// false constant: fine only under the false edge of the field's test
+					for _, cd := range condsAt(at) {
+						if ne, ok := emptyTest(cd.V); ok && ne != cd.True {
+							return false
+						}
+					}
+					return true
+				}
+				if ph, ok := v.(*ssa.Phi); ok {
+					for i, e := range ph.Edges {
+						if mayFalse(e, ph.Block().Preds[i], depth+1) {
+							return true
+						}
+					}
+					return false
+				}
+				if ne, ok := emptyTest(v); ok && ne {
+					return false // the value is the test itself: false only when the list is empty
+				}
+				if bo, ok := v.(*ssa.BinOp); ok && bo.Op == token.OR {
+					return mayFalse(bo.X, at, depth+1) && mayFalse(bo.Y, at, depth+1)
+				}
+				// any other value may be false while the list is non-empty, unless we are past the false edge of the test
+				for _, cd := range condsAt(at) {
+					if ne, ok := emptyTest(cd.V); ok && ne != cd.True {
+						return false
+					}
+				}
+				return true
+			}
+			if mayFalse(ret.Results[0], ret.Block(), 0) {
+				return false
+			}
+		}
+		return true
+	}
+	return func(from, to *ssa.BasicBlock) bool {
+		ifi, ok := from.Instrs[len(from.Instrs)-1].(*ssa.If)
+		if !ok || len(from.Succs) != 2 || from.Succs[0] == from.Succs[1] {
+			return false
+		}
+		cd := normCond(Cond{V: ifi.Cond, True: to == from.Succs[0]})
+		if bo, ok := cd.V.(*ssa.BinOp); ok && (bo.Op == token.EQL || bo.Op == token.NEQ) {
+			if _, isP := bo.X.(*ssa.Parameter); isP && isNilConst(bo.Y) {
+				return (bo.Op == token.EQL) == cd.True
+			}
+		}
+		if ne, ok := emptyTest(cd.V); ok {
+			return ne != cd.True
+		}
+		if call, ok := cd.V.(*ssa.Call); ok && !cd.True {
+			return helperTrue(call.Call.StaticCallee())
+		}
+		return false
+	}
 }
